@@ -79,6 +79,9 @@ def parseOp (w : List String) : Option Op :=
   | ["defn", k, h] => match k.toNat?, unhexS h with
     | some k, some n => some (Op.defname k n)
     | _, _ => none
+  | ["deln", k, h] => match k.toNat?, unhexS h with
+    | some k, some n => some (Op.deldef k n)
+    | _, _ => none
   | ["setc", h, v] => match unhexS h, v.toNat? with
     | some n, some v => some (Op.setcell n v)
     | _, _ => none
